@@ -64,6 +64,8 @@ def _method():
         "pos": st.lists(param, max_size=3), "varargs": st.sampled_from([None, None, "args", "rest"]),
         "kwonly": st.lists(param, max_size=2), "varkw": st.sampled_from([None, None, "kwargs", "kw"]),
         "ret": st.sampled_from(ANNOTATIONS), "first_ann": st.sampled_from([None, None, "'Config'"]),
+        # (the catch-all parameters may be annotated like any other)
+        "varargs_ann": st.sampled_from([None, "int", "str", "typing.Any"]), "varkw_ann": st.sampled_from([None, "int", "typing.Any"]),
     })
 
 
@@ -137,7 +139,7 @@ def _source(name, m):
             seen_default = True
         parts.append(s)
     if m["varargs"]:
-        parts.append("*" + m["varargs"])
+        parts.append("*" + m["varargs"] + (": " + m["varargs_ann"] if m.get("varargs_ann") else ""))
     elif m["kwonly"]:
         parts.append("*")
     for p in m["kwonly"]:
@@ -147,7 +149,7 @@ def _source(name, m):
             s += " = " + p["default"]
         parts.append(s)
     if m["varkw"]:
-        parts.append("**" + m["varkw"])
+        parts.append("**" + m["varkw"] + (": " + m["varkw_ann"] if m.get("varkw_ann") else ""))
     ret = " -> " + m["ret"] if m["ret"] else ""
     return "def %s(%s)%s:\n    return None\n" % (name, ", ".join(parts), ret)
 
